@@ -21,7 +21,8 @@ CONSTANTS MaxLen,     \* longest raw list handed to ulist()
           Kinds2,     \* kinds an edge may have in the dependency graphs on <= 2 derived keys
           Kinds3,     \* ... on 3 derived keys
           Kinds4,     \* ... on 4 derived keys, in the graphs with at most
-          MaxE4       \*     MaxE4 edges (every all-required graph on 4 keys is there anyway)
+          MaxE4,      \*     MaxE4 edges (every all-required graph on 4 keys is there anyway)
+          PathPolicy  \* mechanism of d - path: "alongpath" (today's code) / "rootonly" (must fail PathLeavesOperand)
 
 VARIABLES mode, a, b, pending, m, go
 vars == <<mode, a, b, pending, m, go>>
@@ -56,7 +57,14 @@ NestD  == <<"m", [x |-> VInt(1), y |-> VInt(2)]>>
 NestO  == <<"m", [y |-> VInt(20), z |-> VInt(30)]>>
 NMapU  == {d \in MapsOver(MKey, {VInt(1), NestD}) : \E i \in 1..Len(d) : IsM(d[i][2])}
 NArgU  == {<<"other", o>> : o \in MapsOver({"b", "_c", "z"}, {VInt(2), NestO})}
-InitMap == mode = "map" /\ ((a \in MapU /\ b \in ArgU) \/ (a \in NMapU /\ b \in NArgU)) /\ pending = {} /\ m = Nil
+\* d - path (Algebra.tla 2c): mappings over two keys whose values are flat, a mapping, or a mapping of mappings; paths of 2-3 names
+NestP  == <<"m", [x |-> <<"m", [p |-> VInt(1), q |-> VInt(2)]>>, y |-> VInt(2)]>>
+PMapU  == MapsOver({"a", "b"}, {VInt(1), NestD, NestP})
+PArgU  == {<<"path", p>> : p \in {s \in SeqsUpTo({"a", "x", "p", "z"}, 3) : Len(s) >= 2}}
+InitMap == /\ mode = "map" /\ pending = {} /\ m = Nil
+           /\ \/ a \in MapU /\ b \in ArgU
+              \/ a \in NMapU /\ b \in NArgU
+              \/ a \in PMapU /\ b \in PArgU /\ PathOk(a, b[2])
 
 \* --- "call": a = [par, kin, star, shape] (derived key -> parameter names / their kinds / stars / shape), pending, m ------
 \* a base key is called "key": Dict.__call__ hands every definition a hidden default key = <its name>, which an entry
@@ -168,6 +176,17 @@ BlanketLaw  == OnM("ren2") => LET bl == b[2][1]  iv == b[2][2]  ren == Renaming(
                              /\ ~Collides(a, ren) => /\ Cardinality(DOMAIN r) = Len(a)
                                                      /\ \A k \in KeySet(a) : r[NewKey(ren, k)] = At(a, k)
 
+\* d - path: the tree without that path; nothing else changes; a missing path is a no-op; d keeps everything at every depth
+PathLaw == OnM("path") => LET p == b[2]  r == MinusPath(a, p) IN
+                          /\ IsMapping(r) /\ KeySeq(r) = KeySeq(a)
+                          /\ ~PathThere(AsFun(r), p)
+                          /\ (~PathThere(AsFun(a), p)) => r = a
+                          /\ \A q \in {s \in SeqsUpTo({"a", "b", "x", "y", "p", "q"}, 3) : Len(s) >= 1} :
+                                LET below == Len(p) <= Len(q) /\ SubSeq(q, 1, Len(p)) = p IN          \* q is p or lies below p
+                                /\ (PathThere(AsFun(a), q) /\ ~below) => PathThere(AsFun(r), q)
+                                /\ PathThere(AsFun(r), q) => PathThere(AsFun(a), q) /\ ~below
+PathLeavesOperand == OnM("path") => PathMechAfter(PathPolicy, a, b[2]) = a
+
 \* --- Dict.__call__ ------------------------------------------------------------------------------
 OnC == mode = "call" /\ go
 PermSeqs(S) == {s \in [1..Cardinality(S) -> S] : Injective(s)}                       \* the keyword orders
@@ -206,6 +225,7 @@ GenMap   == /\ mode = "map" /\ ~go /\ go' = TRUE /\ UNCHANGED args
                               out |-> CASE b[1] = "sel"   -> [minus |-> Minus(a, b[2]), and |-> And(a, b[2])]
                                         [] b[1] = "keys"  -> [select |-> Select(a, b[2]), multiget |-> MultiGet(a, b[2])]
                                         [] b[1] = "other" -> [plus |-> Plus(a, b[2]), tplus |-> PlusOn("Dict", a, b[2])]
+                                        [] b[1] = "path"  -> [minus |-> MinusPath(a, b[2])]
                                         [] b[1] = "ren"   -> [collides |-> Collides(a, b[2]), relabel |-> Relabel(a, b[2])]
                                         [] b[1] = "ren2"  -> LET ren == Renaming(a, b[2][1], b[2][2]) IN
                                                              [collides |-> Collides(a, ren), relabel |-> Relabel(a, ren)]]))
